@@ -407,7 +407,9 @@ func (f *formatter) FormatFieldList(fieldList ast.FieldList, endOfDefComment *as
 }
 
 func (f *formatter) FormatFieldDefinition(field *ast.FieldDefinition) {
-	if !f.emitBuiltin && strings.HasPrefix(field.Name, "__") {
+	// the introspection fields the loader adds to the query type carry no position;
+	// a field that was written in a document is printed whatever its name
+	if !f.emitBuiltin && field.Position == nil && strings.HasPrefix(field.Name, "__") {
 		return
 	}
 
